@@ -56,8 +56,15 @@ func mbitsCase(op string, off, n int, mem string) string {
 		return "bad-case"
 	}
 	data := buf[off : off+n : off+n]
+	if op == "z" || op == "l" || op == "t" {
+		// round 7: the same call on a slice whose capacity is left open to the end of the buffer (a
+		// window of a larger buffer, as a caller gets from buf[i:j]); what lies between len and cap
+		// is not the function's to read
+		data = buf[off : off+n]
+		op = strings.ToUpper(op)
+	}
 	var tb []byte
-	if tight {
+	if tight && cap(data) == n {
 		fmt.Fprintln(os.Stderr, "case", op, off, n, tr.Hex(mem))
 		al := off % 8
 		tb = make([]byte, al+n)
@@ -81,7 +88,7 @@ func mbitsCase(op string, off, n int, mem string) string {
 	if p != "" {
 		return p
 	}
-	if tight {
+	if tb != nil {
 		copy(buf[off:off+n], data)
 		for i := 0; i < off%8; i++ {
 			if tb[i] != 0xa5 {
@@ -162,7 +169,7 @@ func exec(in string) string {
 func execRaw(in string) string {
 	f := strings.Fields(strings.ReplaceAll(in, "_", " ")) // supporting runs print inputs with _ for blanks
 	switch f[0] {
-	case "Z", "L", "T":
+	case "Z", "L", "T", "z", "l", "t":
 		off, _ := strconv.Atoi(f[1])
 		n, _ := strconv.Atoi(f[2])
 		return mbitsCase(f[0], off, n, tr.UnHex(f[3]))
@@ -558,6 +565,7 @@ func main() {
 			}
 			emitTextMbits(g) // (byte contents, not lengths: guarded layout only)
 			emitWordCoincidences(g)
+			emitOpenCap(g)
 			// ---- Trunc
 			allStrings(runeAlpha, g.Scale(3, 4), func(s string, k int) { emitTrunc(g, s, true, "runes") })
 			allStrings(badAlpha, g.Scale(4, 5), func(s string, k int) { emitTrunc(g, s, false, "byte-classes") })
